@@ -4,6 +4,7 @@ CONSTANTS
   MaxCalls = 4
   MaxBlocks = 5
   ApiLevel = TRUE
+  Structured = FALSE
   DevUndefinedGoto = FALSE
   DevDuplicateLabel = FALSE
   EmitCases = FALSE
